@@ -59,6 +59,22 @@ def apply(n, edges, combo):
 
 NSPOS_MAX = 36
 
+# phases 1-3 do not read the positioner, the router or the output option - which is exactly why families that judge phases
+# 1-3 rotate through them anyway: state carried from a later phase of one component (or call) into an earlier phase of the
+# next, and flags written by the router, show up only if the later phases vary
+_VARY_P4 = ["valign", "sink", "pack", "bk"]
+_VARY_P5 = ["straight", "poly", "ortho", "noop"]
+
+
+def vary(cases):
+    for i, c in enumerate(cases):
+        c = dict(c)
+        c["p5"] = _VARY_P5[i % 4]
+        c["p4"] = _VARY_P4[(i // 4) % 4]
+        c["virt"] = (i // 16) % 2
+        c["budgetms"] = budget_ms(c["n"], len(c["edges"]), c["p4"])
+        yield c
+
 
 def random_inputs(rng, count, nmin, nmax, **kw):
     seen = set()
@@ -95,7 +111,7 @@ def c02_cases(tier, rng):
     inputs = [(n, e) for n, e, _ in K.family(fam_E(tier))]
     for (n, e), cb in rotate(inputs, combos, 4 if tier == "quick" else 6, rng):
         yield apply(n, e, cb)
-    combos2 = grid(p1=K.P1S, p2=K.P2S, p4=K.P4_ALL, p5=["poly", "ortho", "straight", "noop"],
+    combos2 = grid(p1=K.P1S, p2=K.P2S, p4=K.P4_ALL, p5=["poly", "ortho", "straight", "noop", "splines"],
                    size=["none", "fixed", "all", "some", "fixed+some"], virt=[0, 1])
     rnd = random_inputs(rng, 1500 if tier == "quick" else 20000, 4, 14)
     for (n, e), cb in rotate(rnd, combos2, 1, rng):
@@ -120,8 +136,8 @@ def c03_cases(tier, rng):
 
 
 def c04_cases(tier, rng):
-    combos = grid(p1=K.P1S, p2=K.P2S, p4=K.P4_SIZE_AWARE, p5=["straight"],
-                  size=["all", "fixed", "none", "some"], pat=["het", "het2", "wide1", "odd"], ns=[0, 1, 10])
+    combos = grid(p1=K.P1S, p2=K.P2S, p4=K.P4_SIZE_AWARE, p5=["straight", "poly", "noop"], virt=[0, 1],
+                  size=["all", "fixed", "none", "some"], pat=["het", "het2", "wide1", "odd"], ns=[0, 1, 10], ls=[4, 1])
     inputs = [(n, e) for n, e, _ in K.family(fam_E(tier))]
     for (n, e), cb in rotate(inputs, combos, 4 if tier == "quick" else 6, rng):
         yield apply(n, e, cb)
@@ -141,7 +157,7 @@ def c04_cases(tier, rng):
 
 
 def c05_cases(tier, rng):
-    combos = grid(p1=K.P1S, p2=K.P2S, p4=K.P4_ALL, p5=["straight", "poly", "ortho"],
+    combos = grid(p1=K.P1S, p2=K.P2S, p4=K.P4_ALL, p5=["straight", "poly", "ortho"], virt=[0, 1],
                   size=["all", "fixed"], pat=["het", "odd"])
     inputs = [(n, e) for n, e, r in K.family(fam_E(tier))]
     for (n, e), cb in rotate(inputs, combos, 4 if tier == "quick" else 6, rng):
@@ -398,7 +414,9 @@ ASSUME = [
 
 FAMILIES = {
     "C02": c02_cases, "C03": c03_cases, "C04": c04_cases, "C05": c05_cases, "C06": c06_cases,
-    "C14": c14_cases, "C16": c16_cases, "C11": c11_cases, "C10": c10_cases, "C01": c01_cases, "C12": c12_cases, "C13": c13_cases,
+    "C14": lambda tier, rng: vary(c14_cases(tier, rng)), "C16": c16_cases,
+    "C11": lambda tier, rng: vary(c11_cases(tier, rng)), "C10": lambda tier, rng: vary(c10_cases(tier, rng)),
+    "C01": c01_cases, "C12": c12_cases, "C13": c13_cases,
 }
 
 
